@@ -365,7 +365,9 @@ impl<'s> Tokenizer<'s> {
                     self.tokenize_block_or_var(BlockSentinel::LineStatement)
                 }
                 Some(LexerState::Variable) => self.tokenize_block_or_var(BlockSentinel::Variable),
-                None => panic!("empty lexer stack"),
+                // only reachable in expression mode: the closing delimiter of a variable
+                // block ended the (only) lexer state and more input follows.
+                None => return Err(self.syntax_error("unexpected input after expression")),
             };
             match ok!(outcome) {
                 ControlFlow::Break(rv) => return Ok(Some(rv)),
